@@ -161,6 +161,10 @@ func DecodeSerializedValues(p []byte) ([]byte, []byte, []byte, uint16, uint32, e
 	if err != nil {
 		return nil, nil, nil, 0, 0, err
 	}
+	// The blob must be exactly the concatenation of its declared parts
+	if len(p) != 0 {
+		return nil, nil, nil, 0, 0, fmt.Errorf("%d trailing bytes after program code", len(p))
+	}
 
 	return c, o, w, uint16(z), uint32(s), nil
 }
